@@ -19,6 +19,7 @@ import json
 import os
 
 PINNED = os.path.join(os.path.dirname(os.path.abspath(__file__)), "pinned_fns.json")
+PINNED_PRIVATE = os.path.join(os.path.dirname(os.path.abspath(__file__)), "pinned_private.json")
 STRIDE = 1000000
 _ID_KEYS = ("hid", "loop_id", "label", "id")
 
@@ -187,11 +188,73 @@ def _replace_calls(n, targets, fns, counter, done):
     return n
 
 
+def rename_private(facts):
+    """A non-public function of the pinned tree that is missing, while exactly one new non-public function of the same `impl` has exactly its
+    signature (and no other missing function shares that signature), was renamed: it gets its pinned name back (body, call sites and MIR facts).
+    No property is about the name of a private function; the rules anchor on the pinned names."""
+    try:
+        with open(PINNED_PRIVATE) as fh:
+            priv = json.load(fh)
+    except OSError:
+        return []
+    pinned = _load() or set()
+    fns = facts["fns"]
+    missing = [p for p in priv if p not in fns]
+    if not missing:
+        return []
+    new = [p for p, f in fns.items() if p not in pinned and f.get("vis") != "Public" and not p.startswith("<") and f.get("body") is not None]
+
+    def sig(d):
+        return (tuple(d.get("inputs") or ()), d.get("output"), d.get("kind"))
+    renames = {}
+    for m in missing:
+        owner = m.rsplit("::", 1)[0]
+        same_sig_missing = [x for x in missing if x.rsplit("::", 1)[0] == owner and sig(priv[x]) == sig(priv[m])]
+        cands = [n for n in new if n.rsplit("::", 1)[0] == owner and sig(fns[n]) == sig(priv[m])]
+        if len(same_sig_missing) == 1 and len(cands) == 1:
+            renames[cands[0]] = m
+    if not renames:
+        return []
+    for old_p, new_p in renames.items():
+        f = fns.pop(old_p)
+        f["path"] = new_p
+        f["renamed_from"] = old_p
+        fns[new_p] = f
+    for f in fns.values():
+        for x in _walk(f.get("body")):
+            c = x.get("callee")
+            if isinstance(c, str):
+                base = c[5:] if c.startswith("Self:") else c
+                if base in renames:
+                    x["callee"] = ("Self:" if c.startswith("Self:") else "") + renames[base]
+            d = x.get("def")
+            if isinstance(d, str) and d in renames:
+                x["def"] = renames[d]
+    mir = facts.get("mir", {})
+    for key in list(mir.keys()):
+        v = mir[key]
+        if v.get("parent") in renames:
+            v["parent"] = renames[v["parent"]]
+        for cl in v.get("facts", {}).get("calls", []):
+            if cl.get("callee") in renames:
+                cl["callee"] = renames[cl["callee"]]
+        if key in renames:
+            mir[renames[key]] = mir.pop(key)
+        else:
+            for o_, n_ in renames.items():
+                if key.startswith(o_ + "::"):
+                    mir[n_ + key[len(o_):]] = mir.pop(key)
+                    break
+    facts["_renamed_fns"] = [{"from": o_, "to": n_} for o_, n_ in sorted(renames.items())]
+    return facts["_renamed_fns"]
+
+
 def inline_new_helpers(facts):
     pinned = _load()
     facts["_inlined"] = []
     if pinned is None:
         return 0
+    rename_private(facts)
     fns = facts["fns"]
     new = [p for p, f in fns.items() if p not in pinned and f.get("body") is not None
            and f.get("kind") in ("Fn", "AssocFn") and not p.startswith("<")]
